@@ -160,6 +160,10 @@ func run(lab *atlab.Lab, t *trace.T, sc scenario, schema *atlab.Schema, style at
 	late := map[int]bool{}
 	aborted := false
 	sigBase := schema.Name
+	if schema.Zoo && os.Getenv("SERIALIZER") == "protobuf" {
+		// the protobuf undo parser loses the type of DATETIME values (known finding F-C08-8): keep the class apart
+		sigBase += ":ser=protobuf"
+	}
 	gerr := tm.WithGlobalTx(context.Background(), &tm.GtxConfig{Name: "atrb", Timeout: 30 * time.Second}, func(ctx context.Context) error {
 		xid = tm.GetXID(ctx)
 		for pos < len(sc.Steps) && sc.Steps[pos].Op != "rb" {
